@@ -45,6 +45,8 @@ pub struct Campaign<'a> {
     pub work: PathBuf,
     pub seed_dirs: Vec<PathBuf>,
     pub max_len: usize,
+    /// libFuzzer dictionary (byte strings worth inserting)
+    pub dict: Option<PathBuf>,
 }
 
 pub enum Outcome {
@@ -70,6 +72,9 @@ pub fn run(c: &Campaign<'_>) -> Outcome {
         }
         for (k, v) in &c.env {
             cmd.env(k, v);
+        }
+        if let Some(d) = &c.dict {
+            cmd.arg(format!("-dict={}", d.display()));
         }
         let child = cmd
             .arg(format!("-seed={}", c.seed.wrapping_mul(16).wrapping_add(k as u64 + 1) % 4_000_000_000 + 1))
@@ -238,6 +243,7 @@ pub fn prepare_lockstep(id: &'static str, sub: &'static str, flag_names: &'stati
         work: wd.clone(),
         seed_dirs: vec![seeds],
         max_len: 300,
+        dict: None,
     };
     match run(&camp) {
         Outcome::Done { execs, corpus_files, total_s } => Ok(json!({
@@ -320,3 +326,97 @@ pub fn replay_lock_corpus(ctx: &ShardCtx, id: &'static str, sub: &'static str, f
 
 #[allow(dead_code)]
 pub fn unused(_: &Path) {}
+
+// ------------------------------------------------------------------------------------------------
+// function-level differential campaigns (C04 decoder, C07 tokeniser, C08 classifier)
+
+/// `mode`: decoder | tokens | args. `seeds`: inputs of the check's own generators. `to_case`: the replay-file form of a
+/// crashing input (the crash is re-judged by `vmodel::fdiff::run` in this build before it is reported).
+pub fn prepare_fdiff(id: &'static str, mode: &'static str, sub: &'static str, dict: &str, tier: Tier, seed: u64, seeds: Vec<Vec<u8>>, to_case: fn(&[u8]) -> Value) -> Result<Value, PrepError> {
+    let build_s = match build("fdiff") {
+        Ok(s) => s,
+        Err(why) => return Ok(json!({"fuzzing": "unavailable: the cargo-fuzz build failed; only the enumerated and random parts ran", "build_error_tail": why})),
+    };
+    let wd = lock_work_dir(id, tier);
+    let _ = std::fs::remove_dir_all(&wd);
+    std::fs::create_dir_all(&wd).unwrap();
+    let sd = wd.join("seeds");
+    std::fs::create_dir_all(&sd).unwrap();
+    for v in seeds {
+        std::fs::write(sd.join(format!("{:016x}.bin", fingerprint(&v))), v).unwrap();
+    }
+    let runs = tier.pick(150_000, 6_000_000);
+    let camp = Campaign {
+        target: "fdiff",
+        env: vec![("VFUZZ_MODE".into(), mode.into())],
+        runs,
+        procs: 16,
+        seed,
+        work: wd.clone(),
+        seed_dirs: vec![sd],
+        max_len: 96,
+        dict: Some(vmodel::root().join("corpus/dict").join(dict)),
+    };
+    match run(&camp) {
+        Outcome::Done { execs, corpus_files, total_s } => Ok(json!({
+            "fuzzing": format!("libFuzzer + AddressSanitizer, 16 processes, target `fdiff` ({} differential inside), dictionary {}", mode, dict),
+            "fuzz_executions": execs,
+            "extra_evaluations": execs,
+            "fuzz_runs_per_process": runs,
+            "fuzz_corpus_files_after": corpus_files,
+            "fuzz_build_s": (build_s * 10.0).round() / 10.0,
+            "fuzz_total_s": (total_s * 10.0).round() / 10.0,
+        })),
+        Outcome::Inconclusive(why) => Err(PrepError::Inconclusive(why)),
+        Outcome::Crash { data, log, file } => {
+            // shrink: drop bytes while the differential still fails in this build
+            let fails = |d: &[u8]| !matches!(guarded(|| vmodel::fdiff::run(mode, d)), Ok(Ok(())));
+            let mut cur = data.clone();
+            if fails(&cur) {
+                let mut i = 0;
+                while i < cur.len() {
+                    let mut cand = cur.clone();
+                    cand.remove(i);
+                    if fails(&cand) {
+                        cur = cand;
+                    } else {
+                        i += 1;
+                    }
+                }
+            }
+            let (expected, observed) = match guarded(|| vmodel::fdiff::run(mode, &cur)) {
+                Ok(Err((e, o))) => (e, o),
+                Err(p) => ("no panic".to_string(), p),
+                Ok(Ok(())) => ("the differential holds (libFuzzer + ASan build)".to_string(), format!("crash in the fuzz build only ({}): {}", file.display(), log)),
+            };
+            Err(PrepError::Violation(Failure::new(sub, to_case(&cur), expected, observed)))
+        }
+    }
+}
+
+/// Replay what a differential campaign kept, in the plain harness build
+pub fn replay_fdiff_corpus(ctx: &ShardCtx, id: &'static str, mode: &'static str, sub: &'static str, to_case: fn(&[u8]) -> Value) {
+    let wd = lock_work_dir(id, ctx.tier);
+    let mut files: Vec<PathBuf> = Vec::new();
+    for k in 0..16 {
+        if let Ok(rd) = std::fs::read_dir(wd.join(format!("corpus-{}", k))) {
+            files.extend(rd.filter_map(|e| e.ok().map(|e| e.path())));
+        }
+    }
+    files.sort();
+    let mut n = 0u64;
+    for (i, f) in files.iter().enumerate() {
+        if !ctx.mine(i as u64) || ctx.failed() {
+            continue;
+        }
+        let Ok(data) = std::fs::read(f) else { continue };
+        ctx.count_eval();
+        n += 1;
+        match guarded(|| vmodel::fdiff::run(mode, &data)) {
+            Ok(Ok(())) => {}
+            Ok(Err((e, o))) => ctx.fail(Failure::new(sub, to_case(&data), e, o)),
+            Err(p) => ctx.fail(Failure::new(sub, to_case(&data), "no panic", p)),
+        }
+    }
+    ctx.class_n("fuzz corpus entries replayed", n);
+}
